@@ -46,9 +46,11 @@ SNIPPETS = [
     ("p(X,Y,Z) :- q(X,Y), r(Z).\n", {('p', 3): ['join', ('q', 2), ('r', 1)]}),
     ("is_a(s9a).\nis_a(s9b) :- !.\nis_a(s9c).\nmy_long_name(s9x,s9y).\n", {('is_a', 1): ['rows', [['s9a'], ['s9b'], ['s9c']], 1], ('my_long_name', 2): ['rows', [['s9x', 's9y']], None]}),
     ("is_a(s10a).\nmain(X) :- is_a(X).\n", {('is_a', 1): ['rows', [['s10a']], None], ('main', 1): ['call', 'is_a', 1]}),
+    # predicates whose *names* equal the internal keys of other predicates (p/1 is stored as 'p_1', q/2 as 'q_2')
+    ("p_1.\np_1(s11a).\nq_2(s11b).\n", {('p_1', 0): ['rows', [[]], None], ('p_1', 1): ['rows', [['s11a']], None], ('q_2', 1): ['rows', [['s11b']], None]}),
 ]
-NAMES = [('is_a', 1), ('is_a', 2), ('my_long_name', 2), ('p', 0), ('p', 1), ('p', 2), ('p', 3), ('q', 2), ('r', 1), ('main', 1), ('sub', 1), ('zz', 1), ('q', 1), ('atom', 1), ('query', 2), ('unify', 2), ('sub', 0)]
-REG_TARGETS = [('is_a', 1), ('is_a', 1), ('my_long_name', 2), ('p', 1), ('p', 2), ('sub', 1), ('zz', 1), ('p', 0), ('r', 1), ('atom', 1), ('unify', 2), ('q', 2), ('p', 3)]
+NAMES = [('p_1', 0), ('p_1', 1), ('q_2', 1), ('is_a', 1), ('is_a', 2), ('my_long_name', 2), ('p', 0), ('p', 1), ('p', 2), ('p', 3), ('q', 2), ('r', 1), ('main', 1), ('sub', 1), ('zz', 1), ('q', 1), ('atom', 1), ('query', 2), ('unify', 2), ('sub', 0)]
+REG_TARGETS = [('p_1', 0), ('q_2', 1), ('is_a', 1), ('is_a', 1), ('my_long_name', 2), ('p', 1), ('p', 2), ('sub', 1), ('zz', 1), ('p', 0), ('r', 1), ('atom', 1), ('unify', 2), ('q', 2), ('p', 3)]
 ASSERT_TARGETS = [('is_a', 1), ('p', 1), ('p', 2), ('sub', 1), ('p', 0), ('r', 1), ('q', 2), ('atom', 1), ('p', 3), ('main', 1)]
 RESERVED = {'variable', 'atom', 'functor', 'functor1', 'functor2', 'functor3', 'listpair', 'makelist', 'ATOM_NIL', 'unify', 'match_dynamic', 'query', 'True', 'False', '__builtins__'}
 _CODE = None
